@@ -432,10 +432,16 @@ class Explorer:
                         raise Unsupported(f'schedule replay diverged in {t}: {node.desc} vs {desc}')
                     tid = self.threads[t].tid
                     nv = None
-                    for c, x in self.enabled(tid, desc, st.v):
-                        if c == case:
-                            nv = x
-                            break
+                    if isinstance(case, tuple) and case and case[0] == '$else':
+                        for c, x in self.enabled(tid, desc, st.v):
+                            if c not in case[1]:
+                                case, nv = c, x
+                                break
+                    else:
+                        for c, x in self.enabled(tid, desc, st.v):
+                            if c == case:
+                                nv = x
+                                break
                     if nv is None:
                         raise Unsupported(f'schedule replay: {desc} case {case} not enabled concretely')
                     ch = node.children.get(case)
